@@ -16,9 +16,11 @@ COMMON_NOTE = ('Trusted: Coq 8.16.1 kernel; no axioms (Print Assumptions checked
                'ExtrOcamlBasic extraction cross-checked by vm_compute on a sub-sample; the correspondence harness. '
                'Modelled, not verified: std collections and str methods by documented contract. ')
 
-PER_GRAMMAR = ('For all grammars the link "generate accepts => the emitted tables satisfy the validator" is NOT proved (builder '
-               'invariants); it is established per sampled grammar by running the validator inside Coq on the tables read back '
-               'from the real emitted text, so the theorems hold for all inputs of those grammars. ')
+PER_GRAMMAR = ('The same conclusions are proved WITHOUT the validator for every source text the model of generate accepts, under every '
+               'hash iteration order (PipelineProofs.v, Build/GenCorrect.v: FIRST fixpoint closed, closure = least set, worklist invariants, '
+               'LALR merge keeps cores distinct, normalisation is a renaming, the table holds exactly the items\' demands, translation of '
+               'names to positions). The model is tied to the crate by the correspondence check; additionally the validator is run inside Coq '
+               'on the tables read back from the real emitted text of every sampled grammar. ')
 
 claim('C01',
       'Coq theorems (LR/Complete.v, Sound.v, Payload.v, ValidateProofs.v): for any tables + item annotation + FIRST table passing '
@@ -26,8 +28,8 @@ claim('C01',
       'derivation tree of the start symbol whose yield is the input, accepts every sentence within size+1 iterations, and acceptance '
       'depends only on token kinds. ' + PER_GRAMMAR + 'The real emitted parsers are compiled and run against the Coq driver, an Earley '
       'recogniser and a brute-force canonical LR(1) parser.',
-      COMMON_NOTE + 'rustc\'s reading of the driver text is compared, not proved. Termination on non-sentences is not proved.',
-      'Coq proof (CPS induction on derivations; stack invariant) + validator run in Coq on real tables + differential execution of compiled parsers',
+      COMMON_NOTE + 'rustc\'s reading of the driver text is compared, not proved. Termination on every input is proved from a checked per-grammar certificate (LR/Term.v), not for all grammars at once.',
+      'Coq proof (CPS induction on derivations; stack invariant; generator invariants for all accepted grammars) + validator run in Coq on real tables + differential execution of compiled parsers',
       'DESIGN.md §4.5, §5 C01')
 claim('C02',
       'Coq theorems: for validated tables the value returned on acceptance is a derivation tree (every node an instance of its '
@@ -45,11 +47,12 @@ claim('C03',
       'Coq proof (one-token-lookahead lockstep, fuel monotonicity, completeness) + compiled-parser differential with pull counter',
       'DESIGN.md §5 C03')
 claim('C04',
-      'Coq theorems: the table stage of the model can fail only with a genuine conflict of the automaton it was given; tables passing the '
-      'validator belong to an unambiguous grammar. Exactness (Ok iff the LALR(1) automaton defined from canonical LR(1) item sets is '
-      'conflict-free) is not proved; it is decided per grammar by comparing the crate and the model with a brute-force '
-      'canonical-LR(1)-then-merge reference on generated and textbook grammars.',
-      COMMON_NOTE, 'Coq proof (builder-table invariant) + differential against brute-force LALR(1) reference', 'DESIGN.md §5 C04')
+      'Coq theorems: the table stage of the model can fail only with a genuine conflict of the automaton it was given, and on success the '
+      'table holds exactly the demands of the machine\'s items (table_spec); every grammar the model of generate accepts is unambiguous and '
+      'its emitted parser is a correct recogniser (all grammars, no validator). Exactness (Ok iff the LALR(1) automaton defined from canonical '
+      'LR(1) item sets is conflict-free) is not proved — the lookahead sets are proved closed and justified, not least; it is decided per '
+      'grammar by comparing the crate and the model with a brute-force canonical-LR(1)-then-merge reference on generated and textbook grammars.',
+      COMMON_NOTE, 'Coq proof (builder-table invariant, table_spec, generator invariants) + differential against brute-force LALR(1) reference', 'DESIGN.md §5 C04')
 claim('C05',
       'Coq theorem: the twelve generated helper identifiers are pairwise distinct and differ from all user identifiers. rustc acceptance of '
       'the real output is checked on adversarially named grammars with trait-less payload types (cargo check).',
@@ -60,8 +63,9 @@ claim('C06',
       'the shapes expected from the declarations + a rustc-checked client using every declared item and the parse signature from outside the module.',
       COMMON_NOTE, 'Coq proof (emitter lemmas) + expected-item oracle + rustc client', 'DESIGN.md §5 C06')
 claim('C07',
-      'Coq theorems: the front-end parse loop over the tables regenerated from parser.rs never panics for any token sequence; the table stage '
-      'fails only with a conflict. Totality of the whole pipeline is not proved: every unwrap/index/slice is an explicit Panic in the model and '
+      'Coq theorems: the tokenizer model never panics or runs out of fuel on any string (Lex/NoPanic.v); the front-end parse loop over the tables '
+      'regenerated from parser.rs never panics and terminates within a proved bound for any token sequence; the table stage fails only with a '
+      'conflict. Totality of the whole pipeline is not proved: every unwrap/index/slice is an explicit Panic in the model and '
       'the crate is run on malformed/unusual/large inputs under catch_unwind and in watchdog-guarded child processes, results equal to the model.',
       COMMON_NOTE + 'Host stack depth and wall-clock time are sampled only.',
       'Coq proof (validated tables => no panic) + differential fuzzing with panic/abort/hang detection', 'DESIGN.md §5 C07')
@@ -93,10 +97,12 @@ claim('C13',
       'type position of the real output against the declaration is done by the check.',
       COMMON_NOTE, 'Coq proof + re-tokenisation oracle on real output', 'DESIGN.md §5 C13')
 claim('C14',
-      'Coq theorem: the automaton is independent of the hash iteration order of the transition set. The table-fill site is exercised with both '
-      'orders in the model; the crate is run 3x in-process (one on a fresh thread) and in child processes with identical results required.',
-      COMMON_NOTE + 'That the model lists all hash-iteration sites is by inspection.',
-      'Coq proof (order-independence of from_iter) + repeated-run differential', 'DESIGN.md §5 C14')
+      'Coq theorems: the result of the model of generate (Ok text or Err e, byte for byte) is the same under ANY two iteration orders of its two '
+      'hash collections (the transition set, the action/goto maps): the automaton by order-independence of Oset::from_iter, the table because '
+      'writes to distinct cells commute and the first error is the same conflict (PipelineProofs.v). The crate is run 3x in-process (one on a '
+      'fresh thread) and in child processes with identical results required, and the model under two opposite orders.',
+      COMMON_NOTE + 'That the model lists all hash-iteration sites is by inspection of the crate (HashSet<Transition>, HashMap actions/gotos).',
+      'Coq proof (order-independence of from_iter; commuting writes; permutation-invariant first conflict) + repeated-run differential', 'DESIGN.md §5 C14')
 claim('C15',
       'Coq theorems: for the template regenerated on this run, get_grammar_hash(emitted text) = the embedded digest; the line-wise specification '
       'of get_grammar_hash. Digest = SHA-256(source) checked with hashlib on every case.',
@@ -107,9 +113,10 @@ claim('C16',
       'per pair (source, random re-layout) on the crate, modulo hash line / position map.',
       COMMON_NOTE, 'Coq proof (tokenizer skip lemmas) + metamorphic differential', 'DESIGN.md §5 C16')
 claim('C17',
-      'Coq theorems: for validated tables every non-error cell is demanded by an item and every demand/transition of an item is in the table. '
-      'Exactness w.r.t. the canonical LALR(1) lookahead sets is decided per grammar: tables read from the real text = model = brute-force reference.',
-      COMMON_NOTE, 'Coq validator on real tables + differential against brute-force LALR(1) reference', 'DESIGN.md §5 C17')
+      'Coq theorems: for validated tables every non-error cell is demanded by an item and every demand/transition of an item is in the table; '
+      'the same for the tables of every grammar the model of generate accepts, with the machine\'s own item sets as annotation (closed states, '
+      'distinct cores, deterministic complete transitions, targets with the core of the advanced kernel\'s closure). Exactness w.r.t. the canonical LALR(1) lookahead sets is decided per grammar: tables read from the real text = model = brute-force reference.',
+      COMMON_NOTE, 'Coq proof (generator invariants) + Coq validator on real tables + differential against brute-force LALR(1) reference', 'DESIGN.md §5 C17')
 claim('C18',
       'Coq theorems over the executable model of Oset (insert/contains/from_iter/extend as sorted-list functions): for every '
       'operation sequence and every element type with a lawful total order the set is strictly increasing, holds exactly the '
